@@ -208,17 +208,26 @@ Inductive sop :=
 | SAddPod (i : nat) (key : Z)           (* ExistingNode.Add on the i-th node handed to the scheduler *)
 | SNewClaim (s : nat) (mask : list bool) (* filter provider slice s into a new slice, then OrderByPrice sorts that slice *)
 | SPrecompute (t : nat)                 (* fits() -> AllocatableOfferingsList(): sync.Once precompute of provider instance type t *)
+| SInjectTSC (i : nat) (k : Z)          (* DefaultTopologySpreadInjector.Inject: p.Spec.TopologySpreadConstraints = defaults, IN PLACE on the i-th shared pod
+                                           (a candidate's reschedulable pod, a cached virtual pod).  The former second write of this kind —
+                                           NewPodRequirements sorting the preferred node-affinity terms in place — was fixed in /repo (bad8fc38d)
+                                           and is no longer a step of the model: if it returns it is a violation. *)
 | PNominate (i : nat) (until : Z)       (* Results.Record -> cluster.NominateNodeForPod: the cluster's OWN i-th node *)
 | PMark (pod : Z).                      (* Cluster.MarkPodSchedulingDecisions touches the bookkeeping of this pod *)
 
 Definition is_sim_op (o : sop) : bool :=
-  match o with SAddPod _ _ | SNewClaim _ _ | SPrecompute _ => true | _ => false end.
+  match o with SAddPod _ _ | SNewClaim _ _ | SPrecompute _ | SInjectTSC _ _ => true | _ => false end.
+
+(* the scheduler step that writes objects shared between simulations (finding) *)
+Definition touches_shared_pod (o : sop) : bool :=
+  match o with SInjectTSC _ _ => true | _ => false end.
 
 Record env := mkEnv {
   e_tbl : ttable;
   e_roots : list addr;    (* the cluster's StateNodes *)
   e_slices : list addr;   (* the provider's instance-type slices *)
   e_types : list addr;    (* the provider's InstanceType structs (Capacity, Overhead, override maps hang off them) *)
+  e_pods : list addr;     (* pod objects shared between simulations: the candidates' reschedulable pods, cached virtual pods *)
   e_book : addr           (* the cluster's pod bookkeeping *)
 }.
 
@@ -279,11 +288,15 @@ Definition precompute (h : heap) (a : addr) : heap :=
   | _ => h
   end.
 
+Definition leaf_map (h : heap) (a : addr) (f : list Z -> list Z) : heap :=
+  match cells h a with CLeaf p => write h a (CLeaf (f p)) | _ => h end.
+
 Definition step (e : env) (copies : list (option addr)) (h : heap) (o : sop) : heap :=
   match o with
   | SAddPod i key => match nth i copies None with Some c => en_add h c key | None => h end
   | SNewClaim s mask => match nth_error (e_slices e) s with Some a => new_claim h a mask | None => h end
   | SPrecompute t => match nth_error (e_types e) t with Some a => precompute h a | None => h end
+  | SInjectTSC i k => match nth_error (e_pods e) i with Some a => leaf_map h a (fun p => (p ++ [k])%list) | None => h end
   | PNominate i t => match nth_error (e_roots e) i with Some r => set_field h r "nominatedUntil" (VInt t) | None => h end
   | PMark pod => leaf_append h (e_book e) pod
   end.
